@@ -71,7 +71,7 @@ fn history_pool(ctx: &Ctx, es: &[Entry]) -> Vec<usize> {
     es.iter()
         .enumerate()
         .filter(|(_, e)| ctx.wants(e) && !e.key_lens.is_empty())
-        .filter(|(_, e)| e.family == "aes" || (e.family == "kuznyechik" && e.route != "new_fixed") || e.route == "new" || e.route == "clone" || e.route == "clone_from")
+        .filter(|(_, e)| e.family == "aes" || (e.family == "kuznyechik" && e.route != "new_fixed") || e.route == "new" || e.route == "clone" || (e.route == "clone_from" || e.route == "clone_from_near"))
         .map(|(i, _)| i)
         .collect()
 }
